@@ -57,6 +57,12 @@ func scenarios(tier string) []*vx.Scenario {
 			s = append(s, deadScenario(dc, bound+1)) // short executions: one more deviation is affordable
 		}
 	}
+	// part 4: the heartbeat falls inside a transport upgrade (explored from the start of the upgrade on)
+	for _, c := range exploredConfigs(tier) {
+		for _, uc := range upgradeCases(c, tier) {
+			s = append(s, upgradeScenario(uc, bound))
+		}
+	}
 	if hasArg("replay") {
 		// every scenario of either tier and every enumerated case is addressable by name, so that
 		// `-replay <file>` can re-execute it alone
@@ -77,6 +83,9 @@ func scenarios(tier string) []*vx.Scenario {
 			for _, nc := range append(narrowCases(c), dupCases(c)...) {
 				sc, _ := narrowScenario(nc)
 				more = append(more, sc)
+			}
+			for _, uc := range upgradeCases(c, "thorough") {
+				more = append(more, upgradeScenario(uc, 0))
 			}
 		}
 		for _, sc := range more {
@@ -184,6 +193,22 @@ func enumerated(tier string, r *vx.Report) {
 	}
 	r.Extra["narrow_withheld_pong_cases"] = nNarrow
 
+	// ---- part 4: heartbeat inside an upgrade, every alignment, all nine configurations, default schedule
+	nUp := 0
+	for _, c := range enumConfigs() {
+		for _, uc := range upgradeCases(c, "thorough") {
+			sc := upgradeScenario(uc, 0)
+			uc.Cfg = c.String()
+			res, ok := runCase(sc, tier, uc, r, false)
+			if !ok {
+				continue
+			}
+			nUp++
+			outcomes[sc.Name+"|"+res.Outcome] = true
+		}
+	}
+	r.Extra["heartbeat_inside_upgrade_alignments"] = nUp
+
 	// ---- duplicated pong: observation only
 	var worst time.Duration
 	worstCase, nDup, nLate := "", 0, 0
@@ -262,8 +287,8 @@ func enumerated(tier string, r *vx.Report) {
 		r.Sample(s)
 	}
 	r.Sample(map[string]any{"part": "duplicated pong (observation only)", "case": worstCase, "observed": fmt.Sprintf("death noticed %v later than pingInterval+pingTimeout after the last pong", worst)})
-	r.DistinctNontriv += nDead + nNarrow + nDup + nSlow
-	r.States += nDead + nNarrow + nDup + nSlow
+	r.DistinctNontriv += nDead + nNarrow + nDup + nSlow + nUp
+	r.States += nDead + nNarrow + nDup + nSlow + nUp
 	r.DistinctOutcomes += len(outcomes)
 }
 
@@ -278,6 +303,7 @@ func main() {
 			"Dead peer: for every (pingInterval, pingTimeout) the link is black-holed before every request index of a 3-heartbeat run (both directions / responses only / after the request was served) and at every quarter-interval instant (both / responses only; also with an application sender on either side whose requests are in flight at the instant), one execution each at the default schedule, all nine configurations in both tiers, " +
 			"plus a subset (first pong POST, the poll after it, the tie t=I, a parked long poll) explored with thread-choice deviations from the fault on. " +
 			"Live peer: idle for 5*(I+T), a sender on either side at phase 0, I/4, I/2, 3I/4 of the ping schedule, and the same with a latency of T/8 per leg, explored with thread-choice deviations over the whole run (quick: bound 1; thorough: bound 2, except that a sender firing at the very instant of every ping gets bound 1 over the whole run plus bound 2 inside a window of three heartbeat periods; the dead-peer subset is explored to bound 2 / 3). " +
+			"Upgrade: the live pair upgrades to a duplex pipe (rig R4, the real upgrade state machines) with latency L=T/10 per leg on the pipe and 0 or L on the polling link, started so that ping 1 (and 2) comes due k*L/2 after the start of the upgrade for k=-2..9 (before, inside every phase of, on every boundary of and after the upgrade), one execution each for all nine configurations plus thread-choice deviations from the start of the upgrade on for the explored configurations. " +
 			"Narrow: the server socket against a hand-played polling client that withholds pong k=1..3 after answering the earlier ones with delay 0, T/2, T-1ms. " +
 			"distinct_nontrivial = deviating schedules + enumerated fault positions in which the fault was injected + narrow cases",
 		Scenarios: scenarios,
@@ -291,7 +317,7 @@ func main() {
 		Assumptions: []string{
 			"vsched semantics of Go primitives; virtual time advances only at quiescence, so 'scheduling slack' is zero and the bound checked is the exact pingInterval+pingTimeout after the instant the link died",
 			"rig R3: an in-process RoundTripper stands in for TCP; a dead link = requests that hang forever (no RST, no client-side HTTP deadline), so the client has no transport-level signal and must report 'ping timeout'",
-			"polling transport only (WebSocket/WebTransport heartbeats and 'during an upgrade' need the duplex rig R4 and are not covered here)",
+			"polling transport, and the duplex pipe of rig R4 (a reliable ordered message pipe with latency) as the transport upgraded to; the nhooyr WebSocket / QUIC byte transports themselves are not under the scheduler",
 			"with only the responses black-holed the client's CLOSE packet may reach the server at the very instant the server's own pong timer fires; 'transport close' is then accepted on the server if and only if that packet demonstrably arrived first; the time bound applies regardless",
 			"duplicated pongs (misbehaving peer) are observed, not judged",
 		},
